@@ -83,7 +83,7 @@ def run(R):
                                    callee_matches(blk["term"], ["std::collections::hash::map::HashMap::insert", AB + "BootstrapAddresses::insert_addr"])], "insert into the cache")
         valid = CallGuard([AB + "craft_valid_multiaddr"], ("Some",), "craft_valid_multiaddr(addr,false) is Some",
                           arg_pred=lambda b, blk, t: t["args"][1][0] == "c" and t["args"][1][1] == "false")
-        R.gate("C18.add.valid", aa, ins, [[valid]], descr="add_addr inserts only a crafted (dialable) address", min_sinks=2)
+        R.gate("C18.add.valid", aa, ins, [[valid]], descr="add_addr inserts only a crafted (dialable) address")
         # P2p component: the peer id used as key comes out of a Protocol::P2p match
         g = cfg_of(aa)
         tr = Tracker(aa)
@@ -94,7 +94,7 @@ def run(R):
                     pass
         finds = [b for b in aa.blocks if b["term"]["k"] == "call" and callee_matches(b["term"], ["core::iter::traits::iterator::Iterator::find"])]
         p2p = CallGuard(["core::iter::traits::iterator::Iterator::find"], ("Some",), "address has a P2p component")
-        R.gate("C18.add.p2p", aa, ins, [[p2p]], descr="add_addr inserts only an address carrying a peer id", min_sinks=2)
+        R.gate("C18.add.p2p", aa, ins, [[p2p]], descr="add_addr inserts only an address carrying a peer id")
         fcl = [c for c in F.item(BCS + "::add_addr") if c.kind == "closure" and c.nblocks < 20]
         okp = False
         for c in fcl:
